@@ -35,7 +35,6 @@ VARIABLES sid,          \* scale specification id
           res           \* call name -> result
 vars == <<sid, q1, q2, pc, todo, res>>
 
-Range(s) == {s[i] : i \in DOMAIN s}
 Dims == 1..4
 ZeroDim == <<0, 0, 0, 0>>
 DAdd(x, y) == [i \in Dims |-> x[i] + y[i]]
@@ -44,7 +43,6 @@ DScale(x, p) == [i \in Dims |-> p * x[i]]
 Lim == 1073741823
 (* |a*b| stays in the 32-bit budget *)
 FitsI(a, b) == a = 0 \/ b = 0 \/ Abs(a) <= Lim \div Abs(b)
-FitsR(a, b) == FitsI(a[1], b[1]) /\ FitsI(a[2], b[2])
 
 -----------------------------------------------------------------------------
 (* the unit table: an independent statement of what pint's registry must say *)
